@@ -78,6 +78,14 @@ func (v DenseReal64Vector) Clone() DenseReal64Vector {
   }
   return result
 }
+// Create a deep copy of the vector with room for n elements.
+func (v DenseReal64Vector) cloneWithCapacity(n int) DenseReal64Vector {
+  result := make(DenseReal64Vector, len(v), n)
+  for i, _ := range v {
+    result[i] = v[i].Clone()
+  }
+  return result
+}
 /* native vector methods
  * -------------------------------------------------------------------------- */
 func (v DenseReal64Vector) AT(i int) *Real64 {
@@ -99,10 +107,12 @@ func (v DenseReal64Vector) SLICE(i, j int) DenseReal64Vector {
   return v[i:j]
 }
 func (v DenseReal64Vector) APPEND(w DenseReal64Vector) DenseReal64Vector {
-  // v might be a slice of a longer vector, do not
-  // overwrite the elements behind it
-  v = v[:len(v):len(v)]
-  return append(v, w...)
+  // the result must not share any scalars with v or w
+  r := v.cloneWithCapacity(len(v)+len(w))
+  for i := 0; i < len(w); i++ {
+    r = append(r, w[i].Clone())
+  }
+  return r
 }
 func (v DenseReal64Vector) ToDenseReal64Matrix(n, m int) *DenseReal64Matrix {
   if n < 0 || m < 0 || n*m != len(v) {
@@ -159,31 +169,32 @@ func (v DenseReal64Vector) Swap(i, j int) {
   v[i], v[j] = v[j], v[i]
 }
 func (v DenseReal64Vector) AppendScalar(scalars ...Scalar) Vector {
-  // v might be a slice of a longer vector, do not
-  // overwrite the elements behind it
-  v = v[:len(v):len(v)]
+  // the result must not share any scalars with v or the arguments
+  r := v.cloneWithCapacity(len(v)+len(scalars))
   for _, scalar := range scalars {
     switch s := scalar.(type) {
     case *Real64:
-      v = append(v, s)
+      r = append(r, s.Clone())
     default:
-      v = append(v, s.ConvertScalar(Real64Type).(*Real64))
+      // converting to a different type allocates a new scalar
+      r = append(r, s.ConvertScalar(Real64Type).(*Real64))
     }
   }
-  return v
+  return r
 }
 func (v DenseReal64Vector) AppendVector(w_ Vector) Vector {
-  // v might be a slice of a longer vector, do not
-  // overwrite the elements behind it
-  v = v[:len(v):len(v)]
   switch w := w_.(type) {
   case DenseReal64Vector:
-    return append(v, w...)
+    return v.APPEND(w)
   default:
+    // the result must not share any scalars with v or w
+    r := v.cloneWithCapacity(len(v)+w.Dim())
     for i := 0; i < w.Dim(); i++ {
-      v = append(v, w.At(i).ConvertScalar(Real64Type).(*Real64))
+      s := NullReal64()
+      s.Set(w.ConstAt(i))
+      r = append(r, s)
     }
-    return v
+    return r
   }
 }
 func (v DenseReal64Vector) AsMatrix(n, m int) Matrix {
@@ -252,31 +263,32 @@ func (v DenseReal64Vector) ResetDerivatives() {
   }
 }
 func (v DenseReal64Vector) AppendMagicScalar(scalars ...MagicScalar) MagicVector {
-  // v might be a slice of a longer vector, do not
-  // overwrite the elements behind it
-  v = v[:len(v):len(v)]
+  // the result must not share any scalars with v or the arguments
+  r := v.cloneWithCapacity(len(v)+len(scalars))
   for _, scalar := range scalars {
     switch s := scalar.(type) {
     case *Real64:
-      v = append(v, s)
+      r = append(r, s.Clone())
     default:
-      v = append(v, s.ConvertMagicScalar(Real64Type).(*Real64))
+      // converting to a different type allocates a new scalar
+      r = append(r, s.ConvertMagicScalar(Real64Type).(*Real64))
     }
   }
-  return v
+  return r
 }
 func (v DenseReal64Vector) AppendMagicVector(w_ MagicVector) MagicVector {
-  // v might be a slice of a longer vector, do not
-  // overwrite the elements behind it
-  v = v[:len(v):len(v)]
   switch w := w_.(type) {
   case DenseReal64Vector:
-    return append(v, w...)
+    return v.APPEND(w)
   default:
+    // the result must not share any scalars with v or w
+    r := v.cloneWithCapacity(len(v)+w.Dim())
     for i := 0; i < w.Dim(); i++ {
-      v = append(v, w.MagicAt(i).ConvertMagicScalar(Real64Type).(*Real64))
+      s := NullReal64()
+      s.Set(w.ConstAt(i))
+      r = append(r, s)
     }
-    return v
+    return r
   }
 }
 func (v DenseReal64Vector) AsMagicMatrix(n, m int) MagicMatrix {
